@@ -48,14 +48,14 @@ fn modes_sexp(ms: &[TransactionMode]) -> String {
 /// None = outside the modelled fragment
 pub fn stmt_sexp(s: &Statement) -> Option<String> {
     Some(match s {
-        Statement::StartTransaction { modes, begin, modifier } => {
+        Statement::StartTransaction { modes, begin, modifier, .. } => {
             format!("(starttx {} {} {})", b(*begin), modifier.map(|m| m.to_string()).unwrap_or("none".into()), modes_sexp(modes))
         }
-        Statement::Commit { chain } => format!("(commit {})", b(*chain)),
-        Statement::Rollback { chain, savepoint } => format!("(rollback {} {})", b(*chain), savepoint.as_ref().map(id_sexp).unwrap_or("none".into())),
-        Statement::Savepoint { name } => format!("(savepoint {})", id_sexp(name)),
-        Statement::ReleaseSavepoint { name } => format!("(release {})", id_sexp(name)),
-        Statement::SetRole { context_modifier, role_name } => format!(
+        Statement::Commit { chain, .. } => format!("(commit {})", b(*chain)),
+        Statement::Rollback { chain, savepoint, .. } => format!("(rollback {} {})", b(*chain), savepoint.as_ref().map(id_sexp).unwrap_or("none".into())),
+        Statement::Savepoint { name, .. } => format!("(savepoint {})", id_sexp(name)),
+        Statement::ReleaseSavepoint { name, .. } => format!("(release {})", id_sexp(name)),
+        Statement::SetRole { context_modifier, role_name, .. } => format!(
             "(setrole {} {})",
             match context_modifier {
                 ContextModifier::None => "none",
@@ -64,7 +64,7 @@ pub fn stmt_sexp(s: &Statement) -> Option<String> {
             },
             role_name.as_ref().map(id_sexp).unwrap_or("none".into())
         ),
-        Statement::SetVariable { local, hivevar, variables, value } => {
+        Statement::SetVariable { local, hivevar, variables, value, .. } => {
             let tg = match variables {
                 OneOrManyWithParens::One(n) => format!("(one {})", name_sexp(n)),
                 OneOrManyWithParens::Many(v) => {
@@ -86,10 +86,10 @@ pub fn stmt_sexp(s: &Statement) -> Option<String> {
             }
             format!("(setvar {} {} {tg} (values{vs}))", b(*local), b(*hivevar))
         }
-        Statement::SetTimeZone { local, value } => format!("(settz {} {})", b(*local), expr_sexp(value)?),
+        Statement::SetTimeZone { local, value, .. } => format!("(settz {} {})", b(*local), expr_sexp(value)?),
         Statement::SetNamesDefault {} => "(setnamesdefault)".into(),
-        Statement::SetNames { charset_name, collation_name } => format!("(setnames {} {})", hx(charset_name), collation_name.as_ref().map(|c| hx(c)).unwrap_or("none".into())),
-        Statement::SetTransaction { modes, snapshot: None, session } => format!("(settx {} {})", b(*session), modes_sexp(modes)),
+        Statement::SetNames { charset_name, collation_name, .. } => format!("(setnames {} {})", hx(charset_name), collation_name.as_ref().map(|c| hx(c)).unwrap_or("none".into())),
+        Statement::SetTransaction { modes, snapshot: None, session, .. } => format!("(settx {} {})", b(*session), modes_sexp(modes)),
         Statement::Use(u) => match u {
             Use::Catalog(n) => format!("(use CATALOG {})", name_sexp(n)),
             Use::Schema(n) => format!("(use SCHEMA {})", name_sexp(n)),
@@ -98,13 +98,13 @@ pub fn stmt_sexp(s: &Statement) -> Option<String> {
             Use::Object(n) => format!("(use OBJECT {})", name_sexp(n)),
             Use::Default => "(use DEFAULT)".into(),
         },
-        Statement::Discard { object_type } => format!("(discard {object_type})"),
-        Statement::Deallocate { name, prepare } => format!("(deallocate {} {})", b(*prepare), id_sexp(name)),
-        Statement::Close { cursor } => match cursor {
+        Statement::Discard { object_type, .. } => format!("(discard {object_type})"),
+        Statement::Deallocate { name, prepare, .. } => format!("(deallocate {} {})", b(*prepare), id_sexp(name)),
+        Statement::Close { cursor, .. } => match cursor {
             CloseCursor::All => "(close all)".into(),
-            CloseCursor::Specific { name } => format!("(close {})", id_sexp(name)),
+            CloseCursor::Specific { name, .. } => format!("(close {})", id_sexp(name)),
         },
-        Statement::Assert { condition, message } => format!(
+        Statement::Assert { condition, message, .. } => format!(
             "(assert {} {})",
             expr_sexp(condition)?,
             match message {
